@@ -5,7 +5,7 @@ Open Scope Z_scope.
 
 Definition KF : gconsts (F := float) :=
   {| c_pi := 0x1.921fb54442d18p+1%float; c_1em15 := 1e-15%float; c_1e15 := 1e15%float;
-     c_14826 := 1.4826%float; c_4685 := 4.685%float |}.
+     c_14826 := 1.4826%float; c_4685 := 4.685%float; c_1em9 := 1e-9%float |}.
 
 Record wcase := WV { g_y : list float; g_nd : float; g_p : option float; g_llas : list float; g_robust : bool;
                      g_cos : oracle_table; g_pow : oracle_table; g_out : list Z; g_lopt : float }.
